@@ -41,6 +41,11 @@ def gen(rnd, pp, rule_text, conserve, allow_interval=True):
         e = rnd.randint(s + 1, min(n, s + 4))
         if not any(s < c < e for c in sites):
             A["intervals"] = [{"s": s, "e": e, "amb": rnd.random() < 0.3, "mods": [anngen.mod(rnd, "num")]}]
+            # sometimes a second interval that begins where the first one ends (same condition on the cuts)
+            if e < n and rnd.random() < 0.5:
+                e2 = rnd.randint(e + 1, min(n, e + 3))
+                if not any(e < c < e2 for c in sites):
+                    A["intervals"].append({"s": e, "e": e2, "amb": rnd.random() < 0.3, "mods": [anngen.mod(rnd, "num")]})
     return A
 
 
@@ -60,6 +65,9 @@ def peptides_event(pp, tid, A, rule, mc, semi, conserve, rnd, generator=None):
         shared = anngen.build(pp, A0)
         for e_ in reversed(A["internal"]):
             shared.add_internal_mod(e_["i"], [Mod(anngen.pyval(m_["v"]), m_["m"]) for m_ in e_["mods"]], append=True)
+    if len(A["intervals"]) >= 2 and len(text) % 3:
+        # the same protein, its intervals held in another order than the sequence's (an object may list them in any order)
+        shared.intervals = list(reversed(shared.intervals))
     call(lambda: pp.mass(shared, charge=0))
     call(lambda: pp.comp(shared, estimate_delta=True))
     call(lambda: pp.condense_static_mods(shared))
